@@ -37,6 +37,7 @@ var c17LRs = []lrSpec{
 }
 
 func runC17(c *fw.Ctx) {
+	deeperBounds(!c.Quick())
 	for _, shape := range Shapes(0, c.Pick(4, 6), 3) {
 		for _, lr := range c17LRs {
 			for src := 0; src < 3; src++ {
